@@ -8,7 +8,7 @@
     Every other stream goes to the glue check (Pipe/PipelineCheck.v).  Executable only. *)
 From Coq Require Import List NArith ZArith Bool String Ascii.
 From ApiFu Require Import Base.Sexp Pipe.PipelineModel Pipe.PipelineCheck Pipe.Convert Pipe.Compose.
-From ApiFu Require Syn.Ast Vld.Ast Vld.Decode Vld.ValidatorCheck Exe.ExecData Exe.ExecModel Exe.ExecHyps Exe.ExecDecode Exe.ExecCheck.
+From ApiFu Require Syn.Ast Syn.ParserModel Syn.FrontEnd Vld.Ast Vld.Inspect Vld.TypeInfoModel Vld.ValidatorModel Vld.Decode Vld.ValidatorCheck Exe.ExecData Exe.ExecModel Exe.ExecHyps Exe.ExecDecode Exe.ExecCheck.
 Import ListNotations.
 Open Scope string_scope.
 
@@ -221,12 +221,98 @@ Definition check_composed (l : list sexp) : sexp :=
   | _, _, _, _, _, _, _, _, _, _ => v_bad "composed-fields"
   end.
 
+(** ** the front half on the hostile stream.  Cases of the other streams whose validation is the
+    plain one carry [(front (vschema ..) (vdep names) (plocs ..) (vlocs ..))]: the hostile schema in
+    the validator model's encoding and what parser.ParseDocument / validator.ValidateDocument
+    reported.  [parse_and_validate_bytes] is run on the bytes of the text and must predict it:
+    syntax-error locations in order, validation-error locations as a multiset.
+    Envelope: the scalars listed under [vdep] accept literals depending on their value (DateTime,
+    LongInt), which the validator model cannot express; a document with a literal at such a type is
+    left out ([front-outside-envelope]). *)
+Definition literal_at (names : list bytes) (VS : Vld.Ast.schema) (F : Vld.Ast.features) (D : Vld.Ast.document) : bool :=
+  match Vld.TypeInfoModel.type_info (Vld.ValidatorModel.q_unwrap_obj Vld.ValidatorModel.repaired) VS F D with
+  | Some A =>
+      existsb (fun nd => match nd with
+                         | Vld.Inspect.NValue v =>
+                             negb (Vld.Ast.is_var v) &&
+                             match Vld.Ast.va_expected (Vld.Ast.v_ann v) with
+                             | Some t => Vld.Ast.mem (Vld.Ast.unwrapped t) names
+                             | None => false
+                             end
+                         | _ => false
+                         end) (Vld.Inspect.tree_nodes (Vld.Inspect.tree_doc A))
+  | None => false
+  end.
+
+Definition of_front (r : front_result) : sexp :=
+  match r with
+  | FSyntax e es => tag "syntax" (map of_vpos (syn_locs (e :: es)))
+  | FInvalid e es => tag "invalid" (map (fun x => SL (map of_vpos (Vld.Ast.e_locs x))) (e :: es))
+  | FAccepted _ => tag "accepted" []
+  | FPanic _ => tag "panic" []
+  | FOutOfFuel _ => tag "out-of-fuel" []
+  end.
+
+Definition add_classes (verdict : sexp) (cls : list string) : sexp :=
+  match verdict with
+  | SL (SSym t :: rest) => if String.eqb t "ok" then SL (SSym t :: rest ++ map SSym cls) else verdict
+  | _ => verdict
+  end.
+
+Definition judge_front (bs : bytes) (fr : list sexp) (glue : sexp) : sexp :=
+  match tagged "ok" glue with
+  | None => glue                                   (* an oracle failure or glue mismatch comes first *)
+  | Some _ =>
+      match field1 "vschema" fr, field1 "vdep" fr, field1 "plocs" fr, field1 "vlocs" fr with
+      | Some vs, Some vd, Some pl, Some vl =>
+          match Vld.Decode.dec_schema vs, as_list_of as_bytes vd, dec_loc_list pl, as_list_of dec_loc_list vl with
+          | Some VS, Some names, Some plocs, Some vlocs =>
+              let m := parse_and_validate_bytes VS [] bs in
+              let outside :=
+                  match Syn.FrontEnd.parse_document_bytes bs with
+                  | Syn.ParserModel.Out (Some d) [] => literal_at names VS [] (vld_of_syn d)
+                  | _ => false
+                  end in
+              if outside then add_classes glue ["front-outside-envelope"]
+              else
+                match m with
+                | FSyntax e es =>
+                    if Vld.ValidatorCheck.pos_list_eqb plocs (syn_locs (e :: es)) then add_classes glue ["front-syntax-rejected"]
+                    else v_mismatch "front-syntax" [of_front m]
+                | FInvalid e es =>
+                    match plocs, vlocs with
+                    | [], _ :: _ =>
+                        if Vld.ValidatorCheck.pos_list_eqb (Vld.ValidatorCheck.sort_pos (List.concat vlocs))
+                                                           (Vld.ValidatorCheck.sort_pos (flat_map Vld.Ast.e_locs (e :: es)))
+                        then add_classes glue ["front-validation-rejected"]
+                        else v_mismatch "front-validation-locations" [of_front m]
+                    | _, _ => v_mismatch "front-class" [of_front m]
+                    end
+                | FAccepted _ =>
+                    match plocs, vlocs with
+                    | [], [] => add_classes glue ["front-accepted"]
+                    | _, _ => v_mismatch "front-class" [of_front m]
+                    end
+                | _ => v_mismatch "front-model-crashed" [of_front m]
+                end
+          | _, _, _, _ => v_bad "front-decode"
+          end
+      | _, _, _, _ => v_bad "front-fields"
+      end
+  end.
+
 Definition check (c : sexp) : sexp :=
   match tagged "case" c with
   | None => v_bad "shape"
   | Some l =>
       match field1 "stream" l with
-      | Some (SSym stream) => if String.eqb stream "composed" then check_composed l else check_glue c
+      | Some (SSym stream) =>
+          if String.eqb stream "composed" then check_composed l
+          else
+            match field "front" l, field1 "query" l with
+            | Some fr, Some (SStr bs) => judge_front bs fr (check_glue c)
+            | _, _ => check_glue c
+            end
       | _ => v_bad "fields"
       end
   end.
